@@ -206,7 +206,7 @@ def run_job(job):
             res['obligations'] -= 1
             res['nontrivial'] -= 1
             pr.prove(rad > 0, 'sqrt argument positive in the regular regime', wit('side-sqrt'), sample=False)
-    explore(res, body, max_paths=16, timeout_ms=30000, precision=rnp.dtype(p))
+    explore(res, body, max_paths=16, timeout_ms=30000, precision=rnp.dtype(p), exact=True)
     return res
 
 
